@@ -12,6 +12,7 @@ import (
 	"log"
 	"math"
 	"strings"
+	"sync/atomic"
 	"testing"
 	"time"
 
@@ -36,11 +37,11 @@ func TestMain(m *testing.M) {
 		Level: "fault_enumeration",
 		Rule: "rapid-generated valid files: PLY (ascii/LE/BE; point cloud, mesh, mesh with texcoords, quads) from the independent reference encoder and from ply.Write; binary STL; SPZ (v1/v2, SH 0..3, arbitrary packed bytes, gzip'd by the harness); .splat; PTS (xyz, xyz+i, xyz+i+rgb); 1..6 elements, trailing records carry non-zero values so fabricated zeros cannot coincide with data. " +
 			"For each file EVERY cut position 0..len-1 is decoded (ascii bodies: every position that does not split a number, i.e. every token and line boundary) - exhaustive per file. " +
-			"Outcome must be: an error; or a result bit-equal to the decode of the complete file; or (.splat) exactly the first floor(k/32) records; or a value-equal subset of the full decode (fewer attributes/elements, every returned value identical - counted as its own class). A runtime-error panic, a value differing from the full decode, more elements than the full decode, or a call that does not return within 10 s is a violation. " +
+			"Outcome must be: an error; or a result bit-equal to the decode of the complete file; or (.splat) exactly the first floor(k/32) records; or a value-equal subset of the full decode (fewer attributes/elements, every returned value identical - counted as its own class). A runtime-error panic, a value differing from the full decode, more elements than the full decode, or a call that does not return within 130 s is a violation. " +
 			"evaluations = cut points decoded; non-trivial = cut strictly inside the body (after the header); distinct = (file hash, cut).",
 		Assumptions: []string{
 			"a cut inside a number of an ascii body leaves a syntactically complete, different file and is outside the quantifier",
-			"termination is decided as 'returns within 10 s' for inputs < 8 KB (normal decode: microseconds)",
+			"termination is decided as 'returns within 130 s' for inputs < 8 KB (normal decode: microseconds; a first 10 s limit only raises a suspicion, because a loaded machine can starve a goroutine that long)",
 			"files are small (1..6 elements): cut positions are enumerated exhaustively per file, files are sampled",
 		},
 	})
@@ -275,9 +276,20 @@ func decodeWatched(dec func([]byte) (*modeling.Mesh, error), b []byte) (outcome,
 	case o := <-done:
 		return o, true
 	case <-time.After(10 * time.Second):
+	}
+	// Not back after 10 s (normal cost: microseconds). On a heavily loaded machine a goroutine can be
+	// starved that long, so this is only a suspicion: give the SAME call two more minutes before
+	// calling it a hang (a decoder that really loops never returns, whatever the load).
+	select {
+	case o := <-done:
+		slowDecodes.Add(1)
+		return o, true
+	case <-time.After(120 * time.Second):
 		return outcome{}, false
 	}
 }
+
+var slowDecodes atomic.Int64
 
 // relation of a prefix decode to the full decode: "equal", "subset" or a description of the difference.
 func relate(got, full *modeling.Mesh) string {
